@@ -21,9 +21,9 @@ VALUES = {
     'number': [D('12.50'), D('-3')], 'number_per': [D('2')], 'number_total': [D('20')], 'tolerance': [D('0.01')], 'booking': ['STRICT'],
     'comment': ['he said "hi"\\'], 'narration': ['narr "q"'], 'payee': ['payee'], 'description': ['desc'], 'name': ['name'], 'query_string': ['SELECT 1'],
     'type': ['budget'], 'filename': ['/a b.pdf'], 'config': ['cfg'], 'key': ['title'], 'value': ['val'], 'tag': ['trip'], 'tags': [[], ['t1', 't2']], 'links': [[], ['l1']],
-    'leading_comment': ['lead'], 'trailing_comment': ['trail'], 'inline_comment': ['inline'], 'flag': ['*', '!'], 'indent_by': ['    ', '\t'],
+    'leading_comment': ['lead', 'a\n \nb'], 'trailing_comment': ['trail', 'x\n\t\ny'], 'inline_comment': ['inline'], 'flag': ['*', '!'], 'indent_by': ['    ', '\t'],
     'meta': [{}, {'aa': 'v', 'bb': D('1.5'), 'cc': datetime.date(2000, 1, 1)}], 'postings': [[posting(0), posting(1)]], 'label': ['lbl'], 'merge': [True, False],
-    'values': [[], [D('1'), D('-2'), 'Assets:Foo', True, 's']], 'amount': None, 'indent': ['    '], 'cost': None, 'price': None, 'total_price': None, 'unit_price': None,
+    'values': [[], [D('1'), D('-2'), 'Assets:Foo', True, 's'], [D('10'), D('-2'), D('-3')], [D('1'), D('-2'), models.Amount.from_value(D('-3'), 'USD')]], 'amount': None, 'indent': ['    '], 'cost': None, 'price': None, 'total_price': None, 'unit_price': None,
     'inner_expr': None, 'operand': None, 'unary_op': ['-'], 'components': None, 'directives': None,
 }
 
@@ -48,6 +48,7 @@ def candidates(cls):
 def fresh(v):
     """values holding models must be rebuilt for every construction (a model can be used once)"""
     if isinstance(v, list) and v and isinstance(v[0], base.RawModel): return [posting(i) for i in range(len(v))]
+    if isinstance(v, list) and any(isinstance(x, models.Amount) for x in v): return [models.Amount.from_value(x.number, x.currency) if isinstance(x, models.Amount) else x for x in v]
     if isinstance(v, models.CostSpec): return models.CostSpec.from_value(D('2'), None, 'GBP')
     if isinstance(v, models.UnitPrice): return models.UnitPrice.from_value(D('3'), 'GBP')
     if isinstance(v, models.TotalPrice): return models.TotalPrice.from_value(D('30'), 'GBP')
